@@ -625,7 +625,7 @@ pub (crate) fn bid_add_and_round(
                     is_midpoint_gt_even    = false;
                 } else if is_midpoint_lt_even && (is_inexact_lt_midpoint0 || is_midpoint_gt_even0) {
                     // pu64ed down to a midpoint
-                    is_inexact_lt_midpoint = true;
+                    is_inexact_lt_midpoint = false;
                     is_inexact_gt_midpoint = true;
                     is_midpoint_lt_even    = false;
                     is_midpoint_gt_even    = false;
